@@ -38,12 +38,26 @@ FIXED = [
      'pastify(): unit suffixes of bounds were dropped (eventually[0,2000ms] became once[0,2000] s) and bounds in different units were added'),
     ('F07e', ['C03', 'C08'], 'fix: pastify() counted next/s_next as one time unit',
      'pastify(): next/s_next delayed siblings by 1 default unit instead of one sampling period (wrong or rejected for period != 1 unit)'),
+    ('F14b', ['C04'], 'fix: dense-time offline since lost its first segment',
+     'dense offline since / since[a,b]: a result that starts with -inf lost its first segment (output began after the domain start)'),
+    ('F13', ['C05', 'C10'], 'fix: dense-time online once[a,b]/historically[a,b] lost a pending interval',
+     'dense online once[a,b]/historically[a,b]/since[a,b]: pending interval lost when a batch ended exactly at its begin; results depended on the chunking'),
+    ('F16', ['C05', 'C17'], 'fix: dense-time online monitor crashed on unary minus',
+     "dense online: unary minus / ln / log (every negative literal, 'a >= -2') raised TypeError (discrete-time operations were imported)"),
+    ('F19', ['C05'], 'fix: dense-time online once[a,b]/historically[a,b] mishandled an operand that repeats',
+     'dense online: bounded once/historically nested under each other (or inside since[a,b]) and fed in several updates gave decreasing stamps, wrong values or an intersection exception'),
+    ('F17', ['C05', 'C17'], 'fix: dense-time online monitor failed from the second update on operators whose operands are all constants',
+     "dense online: an operator with only constant operands ('1 - 2', '1 >= 0') raised 'Unexpected case in the intersection' from the second update on"),
 ]
 
 OPEN = [
     ('F08', 'C03', 'delayed-equals-offline', 'findings/F08-C03.json', 'memory-past-above-delayed',
      'pastified memoryful past operator (rise fall prev s_prev once historically since) above a sub-formula with horizon > 0 '
      'sees the warm-up outputs of the delayed operand, e.g. rise(eventually[0,1] b) at i=1 returns min(-b0, max(b0,b1)) instead of max(b0,b1)'),
+    ('F14a', 'C04', 'starts-at-domain-start', 'findings/F14a-C04.json', 'bounded-op-nonzero-start',
+     'dense offline bounded operators anchor their output at time 0 (past) or at start-minus-bound (future) instead of the start of the '
+     'input domain when a signal does not start at 0; pinned by test_once_bounded_3 / test_always_bounded (G[0,1] a on [[2,2]] must give '
+     '[[1,2]]), so it cannot be repaired without editing the suite; values inside windows that reach before the start differ as well'),
 ]
 
 
